@@ -2,6 +2,7 @@ import Flowjaxv.Proofs.Masks
 import Flowjaxv.Proofs.MasksGen
 import Flowjaxv.Proofs.BnafGen
 import Flowjaxv.Proofs.NetGen
+import Flowjaxv.Proofs.BnafInitGen
 /-!
 # C09 — autoregressive, coupling and block structure holds for all weights
 
@@ -691,5 +692,109 @@ theorem mafCond_audit_instance : mafCondAudit.WellShaped ∧
   intro j hj hj' hj1
   omega
 end Audit
+section BnafInitGen
+open Masks MasksPf BnafGenPf BnafInitPf
+
+/-- **the GENERATED `BlockAutoregressiveNetwork.__init__` = the hand models** (`Gen/BnafInitGen.lean`, regenerated from the source on
+every run).  For EVERY key, `dim`, `cond_dim` (`None` or an int), `depth`, `block_dim`, `activation` argument (`None`, a bijection, a
+callable), `inverter` and world (= all allocated array values): if the constructor returns an object `N` then
+* `N.layers` are exactly the GENERATED `block_autoregressive_linear(key_i, n_blocks = dim, block_shape = s_i)`, `s` running through
+  the hand model's `bnafBlockShapes depth block_dim` (`[(1, 1)]` for `depth = 0`, else `[(bd, 1), (bd, bd) × (depth − 1), (1, bd)]`)
+  and `key_i` through `random.split(key', depth + 1)` (`key'` itself for `depth = 0`) — so there are `depth + 1` (resp. 1) of them;
+* `N.shape = (dim,)`, `N.cond_shape = None / (cond_dim,)`, `N.depth`, `N.block_dim` are the arguments, there is a `cond_linear`
+  exactly when `cond_dim` is given, the activation is the documented selection, the inverter the argument or the default;
+* `unwrap(N)` — what the generated methods see — is `netOf` over the hand layers holding the world's arrays, the closures being
+  the generated ones: the network every `gen_bnaf_*` theorem is stated for. -/
+theorem gen_bnaf_init_eq_model {K : Type} (W : Bw.World K ℝ) (IW : Bw.InitWorld K ℝ) (key : K) (dim : Nat) (cond_dim : Option Nat)
+    (depth bd : Nat) (activation : Option (Bw.ActArg ℝ)) (inverter : Option (List ℝ → Option (List ℝ) → List ℝ)) (N : Bw.NetW ℝ)
+    (h : GenBnafInit.init W IW key dim cond_dim depth bd activation inverter = .ok N) :
+    N.layers = (List.zip (layerKeys IW key depth) (bnafBlockShapes depth bd)).map
+        (fun p => GenBnaf.blockAutoregressiveLinear W p.1 dim p.2) ∧
+      N.layers.length = (if depth = 0 then 1 else depth + 1) ∧
+      N.shape = [dim] ∧ N.cond_shape = cond_dim.map (fun c => [c]) ∧ N.depth = depth ∧ N.block_dim = bd ∧
+      N.cond_linear.isSome = cond_dim.isSome ∧ resolveAct activation = .ok N.activation ∧
+      N.inverter = inverter.getD IW.defaultInverter ∧
+      N.unwrap = netOf N.activation.methods.transform_and_log_det N.activation.methods.transform dim bd
+        (handLayers W IW key dim depth bd) (fun L => (GenBnaf.blockAutoregressiveLinear W key L.n (L.b0, L.b1)).2)
+        (condWeight W IW key dim cond_dim depth bd) (inverter.getD IW.defaultInverter) := by
+  obtain ⟨hact, hN⟩ := gen_init_ok W IW key dim cond_dim depth bd activation inverter N h
+  refine ⟨by rw [hN]; rfl, by rw [hN]; exact genLayers_length W IW key dim depth bd, by rw [hN]; rfl, by rw [hN]; rfl,
+    by rw [hN]; rfl, by rw [hN]; rfl, by rw [hN]; cases cond_dim <;> rfl, hact, by rw [hN]; rfl, ?_⟩
+  conv_lhs => rw [hN]
+  exact builtNet_unwrap W IW key dim cond_dim depth bd inverter N.activation
+
+/-- **the guard of the generated constructor**: it raises iff `activation` is an `AbstractBijection` with `shape ≠ ()` or
+`cond_shape is not None` — then `ValueError("Bijection must be unconditional with shape ().")` — for every other argument;
+in particular `zip(keys, block_shapes, strict=True)` and `layers_and_log_jac_fns[0]` never raise. -/
+theorem gen_bnaf_init_guard {K : Type} (W : Bw.World K ℝ) (IW : Bw.InitWorld K ℝ) (key : K) (dim : Nat) (cond_dim : Option Nat)
+    (depth bd : Nat) (activation : Option (Bw.ActArg ℝ)) (inverter : Option (List ℝ → Option (List ℝ) → List ℝ)) (e : Bw.PyErr) :
+    GenBnafInit.init W IW key dim cond_dim depth bd activation inverter = .error e
+      ↔ e = .valueError ∧ ∃ b, activation = some (.bijection b) ∧ (b.shape ≠ [] ∨ b.cond_shape ≠ none) :=
+  gen_init_raises_iff W IW key dim cond_dim depth bd activation inverter e
+
+/-- **the hypotheses of the `gen_bnaf_*` theorems hold of every constructed network**: in a world that allocates arrays of the
+declared shapes (`WorldShaped`: `eqx.nn.Linear(in, out)` → weight `(out, in)`, bias `(out,)`; one raw weight-norm scale per row),
+for every key, `dim`, `depth`, `block_dim ≥ 1`, `cond_dim`: the layers the generated constructor builds satisfy `NetLawful.BnafOK`
+(block shapes = `bnafBlockShapes`, every layer well-shaped with `n_blocks = dim`, `cond_linear` has `out_features(layer 0)` rows). -/
+theorem gen_bnaf_init_ok {K : Type} (W : Bw.World K ℝ) (IW : Bw.InitWorld K ℝ) (hW : WorldShaped W IW) (key : K) (dim : Nat)
+    (cond_dim : Option Nat) (depth bd : Nat) (hbd : 0 < bd) :
+    NetLawful.BnafOK dim depth bd (handLayers W IW key dim depth bd) (condWeight W IW key dim cond_dim depth bd) :=
+  built_bnafOK W IW hW key dim cond_dim depth bd hbd
+
+/-- **`gen_bnaf_dependency` with the constructor instead of a hypothesis on the block shapes**: output `i` of the generated
+`transform` of ANY object the generated `__init__` returns depends only on `x_0 … x_i` (every world, key, `dim`, `depth`,
+`block_dim`, activation, condition passed exactly when `cond_dim` was given). -/
+theorem gen_bnaf_dependency_constructed {K : Type} (W : Bw.World K ℝ) (IW : Bw.InitWorld K ℝ) (key : K) (dim : Nat)
+    (cond_dim : Option Nat) (depth bd : Nat) (activation : Option (Bw.ActArg ℝ))
+    (inverter : Option (List ℝ → Option (List ℝ) → List ℝ)) (N : Bw.NetW ℝ)
+    (h : GenBnafInit.init W IW key dim cond_dim depth bd activation inverter = .ok N)
+    (condition : Option (List ℝ)) (hc : condition.isSome = cond_dim.isSome)
+    (x x' : List ℝ) (hlen : x.length = x'.length) (i : Nat)
+    (hagree : ∀ j (hj : j < x.length) (hj' : j < x'.length), j ≤ i → x[j] = x'[j]) :
+    (GenBnaf.transform N.unwrap x condition).map (·[i]?) = (GenBnaf.transform N.unwrap x' condition).map (·[i]?) := by
+  rw [(gen_bnaf_init_eq_model W IW key dim cond_dim depth bd activation inverter N h).2.2.2.2.2.2.2.2.2]
+  exact gen_bnaf_dependency _ _ dim depth bd _ (handLayers_shapes W IW key dim depth bd) _ _ _ condition
+    (by rw [hc]; cases cond_dim <;> rfl) x x' hlen i hagree
+
+/-- a world allocating constant arrays of the declared shapes (non-vacuity of `WorldShaped`) -/
+def constWorld : Bw.World Nat ℝ where
+  linearInit := fun _ i o => ⟨List.replicate o (List.replicate i 1), List.replicate o 0⟩
+  wnScaleRaw := fun t => List.replicate (rows t) 0
+
+def constInitWorld : Bw.InitWorld Nat ℝ where
+  keys := ⟨fun k n i => k * (n + 1) + i⟩
+  condLinearInit := fun _ i o => ⟨List.replicate o (List.replicate i 1)⟩
+  defaultInverter := fun y _ => y
+
+/-- non-vacuity: `constWorld` satisfies `WorldShaped`; in it the generated constructor with `dim = 2`, `depth = 2`, `block_dim = 3`,
+`cond_dim = 1`, default activation returns an object with 3 layers whose hand layers satisfy `BnafOK`; with a bijection of shape
+`(2,)` it raises `ValueError`. -/
+theorem gen_bnaf_init_instance :
+    WorldShaped constWorld constInitWorld ∧
+    (∃ N, GenBnafInit.init constWorld constInitWorld 0 2 (some 1) 2 3 none none = .ok N ∧ N.layers.length = 3 ∧
+      N.shape = [2] ∧ N.cond_shape = some [1]) ∧
+    NetLawful.BnafOK 2 2 3 (handLayers constWorld constInitWorld 0 2 2 3) (condWeight constWorld constInitWorld 0 2 (some 1) 2 3) ∧
+    GenBnafInit.init constWorld constInitWorld 0 2 none 2 3 (some (.bijection ⟨[2], none, ⟨id, fun z => (z, 0)⟩⟩)) none
+      = .error .valueError := by
+  have hW : WorldShaped constWorld constInitWorld :=
+    ⟨fun k i o => ⟨by simp [constWorld], by intro row hrow; simp [constWorld] at hrow; rw [hrow.2]; simp⟩,
+     fun k i o => by simp [constWorld], fun t => by simp [constWorld], fun k i o => by simp [constInitWorld]⟩
+  refine ⟨hW, ?_, gen_bnaf_init_ok _ _ hW 0 2 (some 1) 2 3 (by norm_num), ?_⟩
+  · cases hr : GenBnafInit.init constWorld constInitWorld 0 2 (some 1) 2 3 none none with
+    | error e =>
+      have := (gen_bnaf_init_guard constWorld constInitWorld 0 2 (some 1) 2 3 none none e).1 hr
+      obtain ⟨_, b, hb, _⟩ := this
+      cases hb
+    | ok N =>
+      have := gen_bnaf_init_eq_model constWorld constInitWorld 0 2 (some 1) 2 3 none none N hr
+      exact ⟨N, rfl, by rw [this.2.1]; rfl, this.2.2.1, this.2.2.2.1⟩
+  · cases hr : GenBnafInit.init constWorld constInitWorld 0 2 none 2 3 (some (.bijection ⟨[2], none, ⟨id, fun z => (z, 0)⟩⟩)) none with
+    | error e =>
+      rw [((gen_bnaf_init_guard constWorld constInitWorld 0 2 none 2 3 _ none e).1 hr).1]
+    | ok N =>
+      have := (gen_bnaf_init_eq_model constWorld constInitWorld 0 2 none 2 3 _ none N hr).2.2.2.2.2.2.2.1
+      simp [resolveAct] at this
+
+end BnafInitGen
 
 end C09
